@@ -57,6 +57,9 @@ func (c ActCase) layer() (func(x tensor.Tensor) (tensor.Tensor, error), error) {
 			conf = &activations.LeakyReluConfig{M: c.M}
 		}
 		l := activations.NewLeakyRelu(conf)
+		if conf != nil {
+			conf.M = 77 // the caller reuses its config struct: the layer is configured already
+		}
 		return func(x tensor.Tensor) (tensor.Tensor, error) { return l.Forward(x) }, nil
 	case "sigmoid":
 		l := activations.NewSigmoid()
@@ -72,6 +75,9 @@ func (c ActCase) layer() (func(x tensor.Tensor) (tensor.Tensor, error), error) {
 	sm, err := activations.NewSoftmax(conf)
 	if err != nil {
 		return nil, err
+	}
+	if conf != nil {
+		conf.Dim = 9 // the caller reuses its config struct: the layer is configured already
 	}
 	return func(x tensor.Tensor) (tensor.Tensor, error) { return sm.Forward(x) }, nil
 }
@@ -264,7 +270,7 @@ func genC15(t *rapid.T) ActCase {
 		for i := range v {
 			switch {
 			case zeros && rapid.IntRange(0, 3).Draw(t, "zero") == 0:
-				v[i] = 0
+				v[i] = rapid.SampledFrom([]float64{0, 0, 0, math.Copysign(0, -1), 1e-300, -1e-300, 5e-324, -5e-324, 1e-200, -1e-200, 1e-30, -1e-30}).Draw(t, "tiny")
 			case rapid.IntRange(0, 5).Draw(t, "large") == 0:
 				v[i] = float64(rapid.IntRange(-700, 700).Draw(t, "big")) + 0.37
 				if math.Abs(v[i]) > 700 {
@@ -345,10 +351,10 @@ func checkC15(c ActCase) *Failure {
 			if math.IsNaN(e.V) || math.Abs(e.V) > 700 {
 				return nil, false
 			}
-			if e.V == 0 && (c.Kind == "relu" || c.Kind == "leaky") {
+			if math.Abs(e.V) <= actTie && (c.Kind == "relu" || c.Kind == "leaky") {
 				kinkAtZero = true
-			} else if math.Abs(e.V) < 1e-9 && (c.Kind == "relu" || c.Kind == "leaky") {
-				return nil, false // numerically at the kink but not exactly 0
+			} else if math.Abs(e.V) < 1e-9 && (c.Kind == "relu" || c.Kind == "leaky") && len(c.Up.Nodes) > 0 {
+				return nil, false // a computed input numerically at the kink: its sign is not reliable
 			}
 		}
 		return &refRun{y: refAct(ctx, c.Kind, x, c.slope(), c.dim(), zeroDeriv), slot: slot, vals: vals}, true
